@@ -51,7 +51,8 @@ Record hstep := {
   st_closed : bool; st_wedged : bool;
   st_settle_stats : list hstat;    (* statistics published with the settlement, when the hand closed in this step *)
   st_ret : Z;                      (* value returned by a deadline extension *)
-  st_result_n : nat; st_hand_n : nat   (* at settlement: result entries, participants *)
+  st_result_n : nat; st_hand_n : nat;  (* at settlement: result entries, participants *)
+  st_ext_injected : bool               (* a deadline extension was served inside the engine's Next step of this attempt *)
 }.
 
 (* steps that are a player's game action (not a deadline extension, not a withheld answer) *)
@@ -241,6 +242,7 @@ Definition last_seen (s : hstep) : option (hev * Z) := last (map Some (st_seen s
 (* a betting round asks a player who has not yet acted: deadline = time of the request + action time
    (the request was delivered between the call and the quiescent point) *)
 Definition c15_set (at_ : Z) (s : hstep) : bool :=
+  st_ext_injected s ||
   match last_seen s with
   | Some (ERoundStarted, _) =>
       let q := st_quiet s in
@@ -255,7 +257,8 @@ Definition c15_set (at_ : Z) (s : hstep) : bool :=
 
 (* cleared when the betting round closes and between hands *)
 Definition c15_clear (s : hstep) : bool :=
-  forallb (fun ed => negb (hev_eqb (fst ed) ERoundClosed) || (snd ed =? 0)) (st_seen s)
+  (st_ext_injected s    (* an extension served after the round closed legitimately moves the cleared deadline again *)
+   || forallb (fun ed => negb (hev_eqb (fst ed) ERoundClosed) || (snd ed =? 0)) (st_seen s))
   && (negb (st_closed s) || (h_end_at (st_quiet s) =? 0)).
 
 (* an extension moves the deadline later by exactly the requested seconds and returns the new one *)
